@@ -382,8 +382,11 @@ class Sym:
         if not isinstance(e, dict) or depth > 6:
             return False
         k = e.get("k")
-        if k in ("var", "this"):
+        if k == "this":
             return True
+        if k == "var":
+            # a function that just returns a constant is not an accessor of a place
+            return e.get("d") in ("param", "local") or depth > 0
         if k == "mem":
             return "f" not in e and self.placelike(e.get("b"), depth + 1)
         if k == "idx":
